@@ -225,6 +225,8 @@ def r5_reply_format(ctx):
 
 
 def r4_isolation(ctx):
+    from . import C20
+    C20.r14_gauges_released_on_every_exit(ctx)   # a connection limit is given back by failed connections too
     accept_loop_rules(ctx, "R16.4", SK + "start_socks5_server", "socks5::handle_socks5_connection", "socks5")
 
 
